@@ -412,4 +412,38 @@ example :
      (match generate cfg .v31 true none [] ops with | .ok d => d.infoSummary == s "An API" | _ => false)) = (true, true, true) := by
   decide
 
+/-! ### `WithResponse` option handling: the example maps, folded by the model -/
+
+/-- **"single example OR named examples"**: whatever sequence of `WithResponse` calls an operation was built from, a
+    response's media type never gets both members (the Media Type Object does not admit both; `wfResp` demands it and
+    `wf_doc` proves it for every generated document) -/
+theorem response_examples_exclusive (opts : List RespOpt) (status : Nat) :
+    ¬ ((exampleOf opts status).1 = true ∧ (exampleOf opts status).2 ≠ []) :=
+  exampleOf_exclusive opts status
+
+/-- named examples win over a sample value documented for the same status, in whichever order the two calls came -/
+theorem named_examples_win (opts : List RespOpt) (status : Nat) (h : namedOf opts status ≠ []) :
+    (exampleOf opts status).1 = false := by
+  unfold exampleOf
+  simp only []
+  split
+  · rename_i he; exact absurd (List.isEmpty_iff.mp he) h
+  · rfl
+
+/-- the last call with named examples decides which ones -/
+theorem last_named_call_decides (opts : List RespOpt) (o : RespOpt) (hn : o.nilValue = false) (hne : o.named ≠ []) :
+    namedOf (opts ++ [o]) o.status = o.named := by
+  unfold namedOf
+  have : (o.status == o.status && !o.nilValue && !o.named.isEmpty) = true := by
+    simp [hn, hne]
+  rw [List.filter_append]
+  simp only [List.filter, this, List.getLast?_append, List.getLast?_singleton, Option.some_or]
+
+/-- not vacuous: a sample value first and named examples later, and the reverse -/
+example :
+    let a : RespOpt := { status := 200, nilValue := false, nonZero := true, named := [] }
+    let b : RespOpt := { status := 200, nilValue := false, nonZero := false, named := [s "ok", s "alt", s "ok"] }
+    (exampleOf [a] 200, exampleOf [a, b] 200, exampleOf [b, a] 200, exampleOf [a, b] 404) =
+      ((true, []), (false, [s "alt", s "ok"]), (false, [s "alt", s "ok"]), (false, [])) := by decide
+
 end Rivaas.C07
